@@ -243,3 +243,56 @@ theorem respond_inv (s : State) (r : ReqId) (prov : Addr) (code : Nat) (out : Ou
           · exact (BoundInv.setCtx (h.bound.bindingsGrow hbs) hx ⟨rfl, rfl⟩)
 
 end SM
+
+namespace SM
+open Map
+
+/-- a slash produces exactly one effect, the slash itself -/
+theorem slash_effects {s s1 : State} {r : ReqId} {svc : SvcName} {p : Addr} {e : List Effect}
+    (h : slash s r svc p = .done s1 e) : ∃ n, e = [.slash r p n] := by
+  unfold slash at h; dsimp only at h
+  repeat' split at h
+  all_goals first
+    | (simp at h; done)
+    | (injection h with _ h2; exact ⟨_, h2.symm⟩)
+
+/-- a settlement only moves coins and slashes: its effects are transfers and slashes, never events or callbacks -/
+theorem settle_effects {s s1 : State} {r : ReqId} {svc : SvcName} {cons : Addr} {q : Req} {prov : Addr} {out : OutKind}
+    {e1 : List Effect} (h : settle s r svc cons q prov out = .ok (s1, e1)) :
+    ∀ e ∈ e1, (∃ a b n, e = .transfer a b n) ∨ (∃ r' p n, e = .slash r' p n) := by
+  unfold settle at h
+  split at h
+  · cases hs : slash s r svc q.prov with
+    | bankErr => rw [hs] at h; simp at h
+    | overflow => rw [hs] at h; simp at h
+    | done s2 e2 =>
+      rw [hs] at h; dsimp only at h
+      cases hb : bankSend s2.bank s2.cfg.escrow cons q.fee with
+      | none => rw [hb] at h; simp at h
+      | some bank' =>
+        rw [hb] at h; simp only [Except.ok.injEq, Prod.mk.injEq] at h
+        obtain ⟨_, h2⟩ := h; subst h2
+        obtain ⟨n, he2⟩ := slash_effects hs
+        subst he2
+        intro e he
+        simp only [List.mem_append, List.mem_singleton] at he
+        rcases he with he | he
+        · exact Or.inr ⟨_, _, _, he⟩
+        · split at he
+          · cases he
+          · simp only [List.mem_singleton] at he; exact Or.inl ⟨_, _, _, he⟩
+  · cases ha : addEarned s prov q.fee with
+    | none => rw [ha] at h; simp at h
+    | some res =>
+      rw [ha] at h; simp only [Except.ok.injEq] at h; subst h
+      unfold addEarned at ha; dsimp only at ha
+      repeat' split at ha
+      all_goals first
+        | (simp at ha; done)
+        | (simp only [Option.some.injEq, Prod.mk.injEq] at ha; obtain ⟨_, h2⟩ := ha; subst h2
+           intro e he
+           first
+             | (cases he; done)
+             | (simp only [List.mem_singleton] at he; exact Or.inl ⟨_, _, _, he⟩))
+
+end SM
